@@ -78,6 +78,10 @@ fn run_eval(engine: &mut Engine, src: &str) -> Result<Vec<String>, (String, Stri
 fn exec_step(engine: &mut Engine, step: &Step) -> Result<Vec<String>, (String, String)> {
     match step {
         Step::Eval { src } => run_eval(engine, src),
+        Step::EvalPath { src, path } => match engine.compile_and_run_raw_program_with_path(src.to_string(), std::path::PathBuf::from(path)) {
+            Ok(vals) => Ok(vals.iter().map(|v| truncate(verif::canon(v), 1 << 20)).collect()),
+            Err(e) => Err((format!("{:?}", e.kind()), truncate(format!("{}", e), 4096))),
+        },
         Step::Module { name, src } => {
             engine.register_steel_module(name.clone(), src.clone());
             Ok(vec![])
